@@ -293,10 +293,13 @@ func (p *TracerProvider) Shutdown(ctx context.Context) error {
 	for _, sps := range p.getSpanProcessors() {
 		select {
 		case <-ctx.Done():
-			// Not all processors were shut down: let a later Shutdown finish the job
-			// instead of reporting success without doing anything.
-			p.isShutdown.Store(false)
-			return ctx.Err()
+			// Do not stop half-way: a provider that is marked as shut down but still
+			// holds live processors keeps delivering spans and can never be shut
+			// down again. Every processor is still asked to shut down (it honours
+			// ctx itself) and the context's error is reported.
+			if retErr == nil {
+				retErr = ctx.Err()
+			}
 		default:
 		}
 
